@@ -341,7 +341,7 @@ impl<C: Suite> Model for MExchange<C> {
                 for e in 0..3 {
                     for (li, _) in self.lens.iter().enumerate() {
                         v.push(XSt { kind: Kind::SignCrypt, s, k, len: li, id: 0, e, reverse: false });
-                        for id in 0..self.ids.len() {
+                        for id in 0..self.ids.len() + SPECIAL_MESSAGES.len() {
                             v.push(XSt { kind: Kind::TimeLock, s, k, len: li, id, e, reverse: false });
                         }
                     }
@@ -384,7 +384,9 @@ impl<C: Suite> Model for MExchange<C> {
         let rsk = rf::scalar_from_be(&sk.to_be_bytes()).unwrap();
         let rpk = rf::sk_to_pk::<C::R>(&rsk);
         let msg = msg_of(self.seed, self.lens[st.len], 3);
-        let id = &self.ids[st.id];
+        // identifier alphabet: the fixed ones, then identifiers built from the recipient's compressed public key
+        let id_owned = if st.id < self.ids.len() { self.ids[st.id].clone() } else { special_message(&Vec::<u8>::from(&self.sks[st.k].public_key()), st.id - self.ids.len()) };
+        let id = &id_owned;
         let ls = lib_scheme(st.s);
         let seed = data32(self.seed, &format!("c18-entropy-{}", st.e));
         let dir = if st.reverse { "ref->lib" } else { "lib->ref" };
